@@ -16,7 +16,7 @@ from lib.vlib import Inconclusive, write_ndjson, read_ndjson
 FORGE64 = ["resign_stranger", "resign_otherdev", "resign_owner", "nonce_other", "ueid_other",
            "ueid_other_key_other", "no_nonce", "no_ueid", "sig_flip", "payload_flip", "xb_empty"]
 FORGE22 = ["to1d_resign_stranger", "to1d_resign_mfg", "to0d_wait_changed", "hash_wrong", "nonce_other",
-           "entry_sig_flip", "no_entries", "entry_resigned_stranger"]
+           "entry_sig_flip", "no_entries", "no_entries_mfg_signed", "entry_resigned_stranger", "strip_certchain"]
 FORGE32 = ["resign_stranger", "resign_otherdev", "nonce_other", "ueid_other", "sig_flip", "no_nonce", "no_ueid"]
 
 
@@ -188,6 +188,8 @@ def worlds(ctx, focus, rnd):
         combos += [(True, 1, "none"), (False, 0, "none"), (False, 2, "none")]
     if focus == 22:
         combos += [(False, 1, "fixed"), (False, 1, "zero")]
+    elif focus == 32:
+        combos += [(False, 0, "short")]         # registrations that expire in real time
     elif not quick:
         combos += [(False, 1, "fixed")]
     out = []
